@@ -12,7 +12,8 @@ from .common import Driver, F, I, L, unF, close, same_bits
 
 RULE = ("synthetic NorKyst-style daily files (2..3 days x 24 h, 6..9 x 6..9 x 4..6, float64 u/v), times at whole hours / any "
         "second / the integrators' sub-steps tstep in {0, 0.5, 1}, request histories forward / repeated / back-and-forth / across "
-        "midnight, positions in the grid including the outermost cells. Non-trivial: every request.")
+        "midnight / jumps of a whole day forth and back (same clock hour on another day) / "
+        "positions in the grid including the outermost cells. Non-trivial: every request.")
 ASSUMPTIONS = ["pyproj's polar-stereographic transform is trusted (ll2xy is compared with the file's lon/lat arrays)",
                "scipy map_coordinates(order=1) is used by both the implementation and the oracle"]
 SITE = "ladim_plugins/nk800met/gridforce.py"
@@ -84,7 +85,7 @@ def run(ctx):
             last_h = ndays * 24 - 2
             base = int((start - np.datetime64(str(day0) + "T00:00:00")).astype("timedelta64[s]").astype(int))
             max_t = (last_h * 3600 - base) // dt
-            kind = ctx.rng.choice(["forward", "repeated", "back_forth", "midnight"])
+            kind = ctx.rng.choice(["forward", "repeated", "back_forth", "midnight", "daily"])
             ts = []
             t = ctx.rng.randrange(0, max(1, max_t // 3))
             for _ in range(ctx.n(25, 80)):
@@ -92,7 +93,11 @@ def run(ctx):
                 if kind == "forward": t = min(max_t, t + ctx.rng.choice([1, 1, 2, 7]))
                 elif kind == "repeated": t = t if ctx.rng.random() < 0.5 else min(max_t, t + 1)
                 elif kind == "back_forth": t = min(max_t, max(0, t + ctx.rng.choice([-9, -1, 1, 1, 5])))
-                else: t = min(max_t, max(0, (24 * 3600 - base) // dt + ctx.rng.randrange(-3, 4)))
+                elif kind == "midnight": t = min(max_t, max(0, (24 * 3600 - base) // dt + ctx.rng.randrange(-3, 4)))
+                else:       # the same clock hour on another day (a one-day model step, daily sampling, a jump back)
+                    day_steps = 24 * 3600 // dt
+                    cand = [t2 for t2 in (t + day_steps, t - day_steps, t + day_steps + 1, t - day_steps - 1, t + 1) if 0 <= t2 <= max_t]
+                    t = ctx.rng.choice(cand) if cand else t
             reads = []
             orig = G.OnlineDatabase._get_var
             def spy(self, name, time, _o=orig, _r=reads):
